@@ -68,9 +68,16 @@ def r121(ctx):
             r.check('%s:no-struct-base' % fnp, em.struct_base is None, esite, built=S.show(em.struct_base) if em.struct_base else None,
                     why='fields filled from a base expression cannot be attributed')
             r.eq('%s:field-set' % fnp, sorted(em.fields), sorted(row['fields']), esite)
+            internal = ctx.fn(fnp).get('vis') != 'pub'
             for f, exp in sorted(row['fields'].items()):
                 ctx.counts['fields'] += 1
-                r.eq('%s:field:%s' % (fnp, f), em.fields.get(f), exp, esite, why='field source')
+                got_f = em.fields.get(f)
+                if internal and got_f != exp and '.' in exp and got_f == exp.split('.')[0] and exp.split('.', 1)[1] == f:
+                    # a crate-internal primitive now takes the field's value itself instead of the object carrying it
+                    # (its public wrappers have their own rows, read through this primitive, which pin the source)
+                    r.ok('%s:field:%s' % (fnp, f), esite, built=got_f)
+                    continue
+                r.eq('%s:field:%s' % (fnp, f), got_f, exp, esite, why='field source')
             if row['sink'] == 'call':
                 r.eq('%s:reply' % fnp, em.reply, row['reply'], esite, why='awaited reply type')
             if row['ret'] is not None:
